@@ -117,6 +117,11 @@ func (r *reader) ReadHeader() error {
 		r.Tracks = append(r.Tracks, Track{})
 	}
 
+	if r.numTracks == 0 {
+		// nothing to read: a header that announces no tracks is not followed into track chunks
+		r.isDone = true
+	}
+
 	return r.error
 }
 
